@@ -90,7 +90,7 @@ C08 = Prop(
     rule="exhaustive: every format string of length <=7 over {'{','}','a'} x argument counts 0..k+1 x argument "
          "texts rotating through {'', x, {}, {, }} (all combinations for formats up to length 4), through "
          "operator%, args(...), str(), conversion and operator<<, continued after a rendering (same object, a copy, two copies going their own ways); typed arguments (int, long long, char, double, "
-         "std::string, const char*) in all pairs and sampled triples; exception messages through the constructor and "
+         "std::string, const char*, partly filled character arrays) in all pairs and sampled triples; exception messages through the constructor and "
          "raise(); seeded random formats of length <=30 incl. NUL/0xff. Non-trivial: the format has at least one "
          "placeholder (str) / more than one argument (exception message). Distinct = distinct case line. " \
                 "Typed arguments include user types whose inserters leave sticky state (hex/showbase; fixed/precision 2) followed by numbers (format family only: an exception message is one stream), and doubles whose 6-digit text differs from their 17-digit text (0.1, 1e+06, 0.333333, -2.7) in both families.",
